@@ -250,8 +250,8 @@ def render_atom(atom):
         if cls == "flip":
             return flipped, gv, flipped
         text = str(flipped).lower()
-        # FlowIR.convert_component_types has no entry for memoization.disable.*: a referenced value stays text there
-        return ref(text, lower=(cls == "varref")), gv, (text if ".memoization." in path else flipped)
+        # (FlowIR.convert_component_types converts memoization.disable.* like every other boolean since the C04 fix)
+        return ref(text, lower=(cls == "varref")), gv, flipped
     if typ == "strlist":
         pool = {"shutdownOn": ["KnownIssue", "SystemIssue"], "restartHookOn": ["UnknownIssue", "SubmissionFailed"]}[leaf]
         n = {"empty": 0, "one": 1, "two": 2}[cls]
